@@ -19,13 +19,14 @@ import (
 
 func run(c *lib.Ctx) {
 	// (a) the multiplexer under the controlled scheduler (muxconc.go)
-	for _, sc := range muxScenarios(c) {
-		if c.Expired() {
-			c.Cap("scenario %s not started", sc.Name)
-			continue
-		}
-		sched.Explore(c, sc)
+	// (thorough tier: at most 60% of the budget, so that part (b) is not starved;
+	// the scenarios share it fairly)
+	restore := func() {}
+	if !c.Quick() {
+		restore = c.Slice(0.6)
 	}
+	sched.ExploreAll(c, muxScenarios(c))
+	restore()
 	// (b) sequential differential local vs client-server (seqdiff.go)
 	seqdiff(c)
 }
